@@ -163,6 +163,8 @@ def classify(e):
     name = type(e).__name__
     if "UFunc" in name or "Cannot cast ufunc" in msg:
         return "cast"
+    if isinstance(e, TypeError) and "Cannot store data of type" in msg:
+        return "cast"
     if isinstance(e, ValueError) and "At least one field" in msg:
         return "empty"
     if isinstance(e, RuntimeError) and "Grids are incompatible" in msg:
@@ -1224,10 +1226,13 @@ class World:
             if self.cls[i] == "raw" or self.gid[i] != self.gid[ti] or self.dat(i).shape != self.dat(ti).shape:
                 raise Skip()
             o = self.objs[i]
+            into = DTN.get(np.dtype(st.dtype))
+            if into is None or self.dtn(i) not in DT:
+                raise Skip()
             res, err = self.try_real(lambda: st.append(o, float(len(st))))
+            self.model_ops.append({"op": "storeFrame", "h": i, "into": into})
             if err is not None:
-                raise Unexpected(f"storage.append failed unexpectedly: {err}")
-            self.model_ops.append({"op": "storeFrame", "h": i})
+                return {"err": err}     # data that cannot be cast to the dtype of the storage are rejected
             frame = st.data[-1]
 
             def finish():
@@ -1909,7 +1914,7 @@ def worker(args):
 def run(ctx):
     from harness.common.isolated import run_many
     procs = ctx.budget(8, 16)
-    n_hist = ctx.budget(1600, 40000)
+    n_hist = ctx.budget(1600, 24000)
     per = -(-n_hist // procs)
     # histories per worker whose differential operators run on the compiled (numba) backend; all
     # others use the scipy backend (no compilation)
@@ -2005,15 +2010,33 @@ def search(ctx, broken):
 
 
 def replay(ctx, rep):
-    case = rep["case"]
-    if "script" not in case:
+    """re-run the history of a replay file on the real code with all monitors; for a broken-tie
+    file also replay the model and print the first difference.  True = the property holds."""
+    from harness.common.lean import LeanBatch
+    cases = []
+    if isinstance(rep.get("case"), dict) and "script" in rep["case"]:
+        cases.append(rep["case"])
+    for b in rep.get("broken", []):
+        if isinstance(b, dict) and isinstance(b.get("case"), dict) and "script" in b["case"]:
+            cases.append(b["case"])
+    if not cases:
         print("this replay file carries no executable history")
         return True
-    w = rebuild(case)
-    for d in summarize(case):
-        print("op:", d)
-    for f in w.mfail:
-        print("monitor failure:", f)
-    if not w.mfail:
-        print("monitor: holds on this history")
-    return not w.mfail
+    ok = True
+    for case in cases[:5]:
+        w = rebuild(case)
+        for d in summarize({"script": w.script}):
+            print("op:", d)
+        for f in w.mfail:
+            print("monitor failure:", f)
+        if not w.mfail:
+            print("monitor: holds on this history")
+        ok = ok and not w.mfail
+        try:
+            b = LeanBatch(ctx.workdir)
+            b.add("c15.run", w.request())
+            diff = compare(w, b.run()[0])
+            print("model vs code:", "agree" if diff is None and w.unexpected is None else (diff or w.unexpected))
+        except Exception as e:  # noqa: BLE001
+            print("model replay not available:", e)
+    return ok
